@@ -172,38 +172,22 @@ theorem varResult_eq_pvar_of_le_one (ddof : Nat) (hd : ddof ≤ 1) (c : Col) :
 
 /-- what the `Var` stream does after the batches `seen` -/
 def varSpec (ddof : Nat) (seen : List Col) : Res :=
-  if seen.flatten = [] then Res.zeroDiv
-  else Res.ok (varResult ddof (psum seen.flatten) (psumsq seen.flatten) (pcount seen.flatten))
+  Res.ok (varResult ddof (psum seen.flatten) (psumsq seen.flatten) (pcount seen.flatten))
+
+theorem all_isEmpty_snoc_nil (seen : List Col) : (seen ++ [[]]).all List.isEmpty = seen.all List.isEmpty := by
+  simp
 
 theorem var_run (ddof : Nat) (bs : List Col) (k : Nat) (hk : k < bs.length) :
     (run (Var ddof) bs)[k]? = some (varSpec ddof (bs.take (k + 1))) := by
-  refine run_eq (Var ddof)
-    (fun seen acc => match acc with
-      | none => seen.flatten = []
-      | some s => seen.flatten ≠ [] ∧
-          s = ⟨psum seen.flatten, psumsq seen.flatten, pcount seen.flatten, false⟩)
-    (varSpec ddof) rfl ?_ bs k hk
-  intro seen acc b h
+  refine run_eq_of_state (Var ddof)
+    (fun seen => ⟨psum seen.flatten, psumsq seen.flatten, pcount seen.flatten, seen.all List.isEmpty⟩)
+    (varSpec ddof) (fun _ => rfl) (fun _ => rfl) ?_ bs k hk
+  intro seen b
   by_cases he : b = []
   · subst he
-    cases acc with
-    | none =>
-      simp only at h
-      simp [node, accumulator, Var, varSpec, h]
-    | some s =>
-      obtain ⟨h1, h2⟩ := h
-      subst h2
-      simp [node, accumulator, Var, varSpec, h1]
-  · have hne : (seen ++ [b]).flatten ≠ [] := by simp [he]
-    have hbe : b.isEmpty = false := by cases b <;> simp_all
-    cases acc with
-    | none =>
-      have h' : seen.flatten = [] := h
-      simp [node, accumulator, Var, varSpec, he, h', Rat.zero_add]
-    | some s =>
-      obtain ⟨h1, h2⟩ := h
-      subst h2
-      simp_all [node, accumulator, Var, varSpec, psum_append, psumsq_append, pcount_append]
+    simp [Var, varSpec]
+  · have hbe : b.isEmpty = false := by cases b <;> simp_all
+    simp [Var, varSpec, hbe, he, psum_append, psumsq_append, pcount_append]
 
 theorem count_eq (bs : List Col) (k : Nat) (hk : k < bs.length) :
     (run Count bs)[k]? = some (pcount (bs.take (k + 1)).flatten) := by
